@@ -208,15 +208,18 @@ func (g *gen) drawPlain() {
 			ntop = g.intn(0, 1, "top-n2")
 		}
 		for i := 0; i < ntop; i++ {
-			switch g.weighted("top-kind", 75, 15, 10) {
+			switch g.weighted("top-kind", 70, 14, 9, 7) {
 			case 0:
 				g.addContainer(m.scope, true)
 			case 1:
 				g.addList(m.scope)
 				g.feat("top-level-list")
-			default:
+			case 2:
 				g.addLeaf(m.scope, leafOpts{})
 				g.feat("top-level-leaf")
+			default:
+				g.addLeafList(m.scope)
+				g.feat("top-level-leaf-list")
 			}
 			m.hasData = true
 		}
